@@ -143,6 +143,12 @@ def cases_for_table(carver, kind, cells, tier, seed, d_cfg, dev_level, nan_cells
         c = dict(default)
         c["min_freq_mod"] = 0
         out.append(mk(nc, None, c, True))
+    # verbose fits must carve exactly like silent ones, also when base modalities are groups of raw values
+    if not lean and kind != "QNT":
+        c = dict(default)
+        c["verbose"] = True
+        c["min_freq"] = 0.25
+        out.append(mk(None, None, c))
     # a single missing row with an explicit zero threshold: the tiny missing group may stand alone
     if not lean:
         tiny = (3,) if carver == "continuous" else ((0, 1) if carver == "binary" else (0, 0, 1))
